@@ -15,18 +15,30 @@ package main
 // model (Model/Settings.v) inside Coq.
 
 import (
+	"bytes"
 	"context"
+	"crypto/ecdsa"
+	"crypto/elliptic"
+	"crypto/rand"
+	"crypto/tls"
+	"crypto/x509"
+	"crypto/x509/pkix"
+	"encoding/pem"
 	"fmt"
+	"io"
+	"math/big"
 	"net"
 	"net/http"
 	"net/http/cookiejar"
 	"net/url"
+	"os"
 	"sort"
 	"strconv"
 	"strings"
 	"time"
 
 	req "github.com/imroc/req/v3"
+	"github.com/imroc/req/v3/http2"
 	"github.com/imroc/req/v3/verifharness/hk"
 )
 
@@ -52,6 +64,55 @@ type setter struct {
 	Key int    `json:"key,omitempty"`
 	Val int    `json:"val,omitempty"`
 	Vs  []int  `json:"vs,omitempty"`
+	Api string `json:"api,omitempty"` // dumpenable: which EnableDumpAll* call
+	Es  []edit `json:"es,omitempty"`  // tlsedit: the in-place edits, in order
+}
+
+// an in-place edit of a box (Model/Settings.v bedit)
+type edit struct {
+	K string `json:"k"` // set | cert | root
+	I int    `json:"i,omitempty"`
+	V int    `json:"v"`
+}
+
+func coqEdits(es []edit) string {
+	out := make([]string, len(es))
+	for i, e := range es {
+		switch e.K {
+		case "set":
+			out[i] = fmt.Sprintf("ESet %d %d", e.I, e.V)
+		case "cert":
+			out[i] = fmt.Sprintf("ECert %d", e.V)
+		case "root":
+			out[i] = fmt.Sprintf("ERoot %d", e.V)
+		}
+	}
+	return "[" + strings.Join(out, "; ") + "]"
+}
+
+// the EnableDumpAll* family as in-place edits of [output; reqHeader; reqBody; respHeader; respBody; async]
+func dumpApiEdits(s setter) []edit {
+	switch s.Api {
+	case "all":
+		return nil
+	case "to":
+		return []edit{{"set", 0, s.Val}}
+	case "async":
+		return []edit{{"set", 5, 1}}
+	case "noreqbody":
+		return []edit{{"set", 2, 0}}
+	case "norespbody":
+		return []edit{{"set", 4, 0}}
+	case "noresp":
+		return []edit{{"set", 4, 0}, {"set", 3, 0}}
+	case "noreq":
+		return []edit{{"set", 1, 0}, {"set", 2, 0}}
+	case "noheader":
+		return []edit{{"set", 1, 0}, {"set", 3, 0}}
+	case "nobody":
+		return []edit{{"set", 2, 0}, {"set", 4, 0}}
+	}
+	panic("dump api " + s.Api)
 }
 
 func coqNats(xs []int) string {
@@ -96,6 +157,23 @@ func (s setter) coq() string {
 		return "SJarPlain"
 	case "jarstore":
 		return fmt.Sprintf("(SJarStore %d)", s.Val)
+	case "sliceset":
+		return fmt.Sprintf("(SSliceSet %d %s)", s.F, coqNats(s.Vs))
+	case "tlsedit":
+		return fmt.Sprintf("(STlsEdit %s)", coqEdits(s.Es))
+	case "tlsnew":
+		return fmt.Sprintf("(STlsNew %s)", coqNats(s.Vs))
+	case "dumpenable":
+		if s.Api == "all" {
+			return "SDumpAll"
+		}
+		return fmt.Sprintf("(SDumpEnable %s)", coqEdits(dumpApiEdits(s)))
+	case "dumpdisable":
+		return "SDumpDisable"
+	case "dumpsetopts":
+		return fmt.Sprintf("(SDumpSetOpts %s)", coqNats(s.Vs))
+	case "dumptransport":
+		return fmt.Sprintf("(SDumpTransport %s)", coqNats(s.Vs))
 	}
 	panic("setter " + s.K)
 }
@@ -130,7 +208,9 @@ func (o op) String() string { return strings.Trim(o.coq(), "()") }
 
 // description layout shared by the model's `describe`, the reference and the observation
 var compNames = []string{"headers", "query", "form", "pathparams", "cookies", "jar", "before", "wrappers", "twrappers",
-	"after", "retry", "retryconds", "retryhooks", "scalars"}
+	"after", "retry", "retryconds", "retryhooks", "scalars", "h2settings", "h2priorityframes", "dump", "dumpoptions", "dumplinked", "tls"}
+
+const nScal = 22
 
 type desc [][]int
 
@@ -187,14 +267,59 @@ type refRetry struct {
 	conds, hooks  []int
 }
 
+// dump options as the documentation names them
+type refDump struct {
+	out                                             int
+	reqHeader, reqBody, respHeader, respBody, async bool
+}
+
+func (d refDump) flat() []int {
+	b := func(v bool) int {
+		if v {
+			return 1
+		}
+		return 0
+	}
+	return []int{d.out, b(d.reqHeader), b(d.reqBody), b(d.respHeader), b(d.respBody), b(d.async)}
+}
+
+func refDumpOf(l []int) refDump {
+	return refDump{l[0], l[1] == 1, l[2] == 1, l[3] == 1, l[4] == 1, l[5] == 1}
+}
+
+type refTLS struct {
+	insecure bool
+	certs    []int
+	roots    []int
+}
+
+func (t *refTLS) flat() []int {
+	out := []int{0, len(t.certs)}
+	if t.insecure {
+		out[0] = 1
+	}
+	out = append(out, t.certs...)
+	return append(out, t.roots...)
+}
+
+func refTLSOf(l []int) *refTLS {
+	return &refTLS{insecure: l[0] == 1, certs: cpInts(l[2 : 2+l[1]]), roots: cpInts(l[2+l[1]:])}
+}
+
 type refObj struct {
-	sl     [5][]int
+	sl     [7][]int
 	mp     [4]map[int][]int
 	rt     refRetry
-	scal   [6]int
+	scal   [nScal]int
 	jar    *[]int // pointer only to express the documented exception (SetCookieJar: shared by clones)
 	fact   bool
 	client int
+	// client-level dump: the options the dump setters write, and what the running dump does:
+	// 0 = off, 1 = dumping as those options say, 2 = dumping with options given to the transport directly
+	dopt    *refDump
+	dumping int
+	dumpOwn refDump
+	tls     *refTLS
 }
 
 func cpInts(a []int) []int { return append([]int(nil), a...) }
@@ -214,6 +339,14 @@ func (o *refObj) deepCopy() *refObj {
 		n.jar = &[]int{} // a jar created from a factory: the clone gets its own
 	} else {
 		n.jar = o.jar // documented: a jar set without a factory is shared
+	}
+	if o.dopt != nil {
+		d := *o.dopt
+		n.dopt = &d
+	}
+	n.dumping, n.dumpOwn = o.dumping, o.dumpOwn
+	if o.tls != nil {
+		n.tls = &refTLS{o.tls.insecure, cpInts(o.tls.certs), cpInts(o.tls.roots)}
 	}
 	return n
 }
@@ -265,6 +398,68 @@ func (o *refObj) apply(s setter) {
 		if o.jar != nil {
 			*o.jar = append(*o.jar, s.Val)
 		}
+	case "sliceset":
+		o.sl[s.F] = cpInts(s.Vs)
+	case "tlsedit":
+		if o.tls == nil {
+			o.tls = &refTLS{}
+		}
+		for _, e := range s.Es {
+			switch e.K {
+			case "set":
+				o.tls.insecure = e.V == 1
+			case "cert":
+				o.tls.certs = append(o.tls.certs, e.V)
+			case "root":
+				dup := false
+				for _, r := range o.tls.roots {
+					dup = dup || r == e.V
+				}
+				if !dup {
+					o.tls.roots = append(o.tls.roots, e.V)
+				}
+			}
+		}
+	case "tlsnew":
+		o.tls = refTLSOf(s.Vs)
+	case "dumpenable":
+		if s.Api == "all" && o.dumping != 0 {
+			break // "dump already started"
+		}
+		if o.dopt == nil {
+			o.dopt = &refDump{1, true, true, true, true, false}
+		}
+		switch s.Api {
+		case "to":
+			o.dopt.out = s.Val
+		case "async":
+			o.dopt.async = true
+		case "noreqbody":
+			o.dopt.reqBody = false
+		case "norespbody":
+			o.dopt.respBody = false
+		case "noresp":
+			o.dopt.respBody, o.dopt.respHeader = false, false
+		case "noreq":
+			o.dopt.reqHeader, o.dopt.reqBody = false, false
+		case "noheader":
+			o.dopt.reqHeader, o.dopt.respHeader = false, false
+		case "nobody":
+			o.dopt.reqBody, o.dopt.respBody = false, false
+		}
+		if o.dumping == 0 {
+			o.dumping = 1
+		}
+	case "dumpdisable":
+		o.dumping = 0
+	case "dumpsetopts":
+		d := refDumpOf(s.Vs)
+		o.dopt = &d
+		if o.dumping != 0 {
+			o.dumping = 1
+		}
+	case "dumptransport":
+		o.dumping, o.dumpOwn = 2, refDumpOf(s.Vs)
 	}
 }
 
@@ -311,7 +506,39 @@ func refDescribe(c, r *refObj) desc {
 		nonNil(append(cpInts(r.sl[0]), c.sl[0]...)), jar,
 		nonNil(cpInts(c.sl[3])), revInts(c.sl[1]), revInts(c.sl[2]),
 		nonNil(append(cpInts(c.sl[4]), r.sl[4]...)),
-		{r.rt.max, r.rt.interval}, nonNil(cpInts(r.rt.conds)), nonNil(cpInts(r.rt.hooks)), c.scal[:]}
+		{r.rt.max, r.rt.interval}, nonNil(cpInts(r.rt.conds)), nonNil(cpInts(r.rt.hooks)), c.scal[:],
+		nonNil(cpInts(c.sl[5])), nonNil(cpInts(c.sl[6])), refDumping(c), refDopt(c), {b2i(c.dumping == 1)}, refTLSDesc(c)}
+}
+
+func b2i(v bool) int {
+	if v {
+		return 1
+	}
+	return 0
+}
+
+func refDumping(c *refObj) []int {
+	switch c.dumping {
+	case 1:
+		return append([]int{1}, c.dopt.flat()...)
+	case 2:
+		return append([]int{1}, c.dumpOwn.flat()...)
+	}
+	return []int{0}
+}
+
+func refDopt(c *refObj) []int {
+	if c.dopt == nil {
+		return []int{0}
+	}
+	return append([]int{1}, c.dopt.flat()...)
+}
+
+func refTLSDesc(c *refObj) []int {
+	if c.tls == nil {
+		return []int{0}
+	}
+	return append([]int{1}, c.tls.flat()...)
 }
 
 // ---------- the real thing ----------
@@ -332,7 +559,21 @@ func valTok(s string) int {
 	return n
 }
 
-type trace struct{ before, wrap, twrap, after, conds, hooks []int }
+type trace struct {
+	before, wrap, twrap, after, conds, hooks []int
+	proxy                                    int
+}
+
+// a dump output with an identity (token >= 2; token 1 is os.Stdout) that counts what it receives
+type sink struct {
+	id int
+	n  int
+}
+
+func (s *sink) Write(p []byte) (int, error) { s.n += len(p); return len(p), nil }
+
+const nSinks = 5 // tokens 2..nSinks+1
+const nRoots = 4 // root certificate tokens 1..nRoots
 
 type captured struct {
 	path   string
@@ -358,17 +599,68 @@ func (l *pipeListener) Close() error   { close(l.done); return nil }
 func (l *pipeListener) Addr() net.Addr { return &net.TCPAddr{IP: net.IPv4(127, 0, 0, 1), Port: 80} }
 
 type env struct {
-	ln      *pipeListener
-	srv     *http.Server
-	cur     *trace
-	last    *captured
-	clients map[int]*req.Client
-	reqs    map[int]*req.Request
-	reqCl   map[int]int
+	ln        *pipeListener
+	srv       *http.Server
+	cur       *trace
+	last      *captured
+	clients   map[int]*req.Client
+	reqs      map[int]*req.Request
+	reqCl     map[int]int
+	sinks     []*sink        // by token
+	rootPEM   []string       // by token
+	rootSub   map[string]int // raw subject -> token
+	asyncSeen bool           // an asynchronous dump was configured in this program: no byte accounting on the sinks
+}
+
+func (e *env) sinkFor(tok int) io.Writer {
+	if tok == 1 {
+		return os.Stdout
+	}
+	return e.sinks[tok]
+}
+
+func (e *env) sinkTok(w io.Writer) int {
+	if w == nil {
+		return 0
+	}
+	if s, ok := w.(*sink); ok {
+		return s.id
+	}
+	if f, ok := w.(*os.File); ok && f == os.Stdout {
+		return 1
+	}
+	return 9998
+}
+
+func (e *env) initTLSMaterial() error {
+	e.rootPEM = make([]string, nRoots+1)
+	e.rootSub = map[string]int{}
+	for i := 1; i <= nRoots; i++ {
+		key, err := ecdsa.GenerateKey(elliptic.P256(), rand.Reader)
+		if err != nil {
+			return err
+		}
+		tmpl := &x509.Certificate{SerialNumber: big.NewInt(int64(i)), Subject: pkix.Name{CommonName: "c19-root-" + strconv.Itoa(i)},
+			NotBefore: time.Unix(0, 0), NotAfter: time.Unix(4000000000, 0), IsCA: true, BasicConstraintsValid: true, KeyUsage: x509.KeyUsageCertSign}
+		der, err := x509.CreateCertificate(rand.Reader, tmpl, tmpl, &key.PublicKey, key)
+		if err != nil {
+			return err
+		}
+		cert, err := x509.ParseCertificate(der)
+		if err != nil {
+			return err
+		}
+		e.rootPEM[i] = string(pem.EncodeToMemory(&pem.Block{Type: "CERTIFICATE", Bytes: der}))
+		e.rootSub[string(cert.RawSubject)] = i
+	}
+	return nil
 }
 
 func newEnv() *env {
 	e := &env{ln: &pipeListener{ch: make(chan net.Conn), done: make(chan struct{})}, cur: &trace{}}
+	if err := e.initTLSMaterial(); err != nil {
+		panic(err)
+	}
 	e.srv = &http.Server{Handler: http.HandlerFunc(func(w http.ResponseWriter, q *http.Request) {
 		q.ParseForm()
 		e.last = &captured{path: q.URL.Path, query: q.URL.Query(), header: q.Header.Clone(), form: q.PostForm}
@@ -386,6 +678,12 @@ func (e *env) reset() {
 		c.GetTransport().CloseIdleConnections()
 	}
 	e.clients, e.reqs, e.reqCl = map[int]*req.Client{}, map[int]*req.Request{}, map[int]int{}
+	// fresh sinks per program: a late write of an asynchronous Dumper of an earlier program lands in the old ones
+	e.sinks = make([]*sink, nSinks+2)
+	for i := 2; i < len(e.sinks); i++ {
+		e.sinks[i] = &sink{id: i}
+	}
+	e.asyncSeen = false
 }
 
 func (e *env) dial(ctx context.Context, network, addr string) (net.Conn, error) {
@@ -425,6 +723,61 @@ func (e *env) cond(id int) req.RetryConditionFunc {
 }
 func (e *env) hook(id int) req.RetryHookFunc {
 	return func(*req.Response, error) { e.cur.hooks = append(e.cur.hooks, id) }
+}
+
+func (e *env) dumpOpts(l []int) *req.DumpOptions {
+	return &req.DumpOptions{Output: e.sinkFor(l[0]), RequestHeader: l[1] == 1, RequestBody: l[2] == 1,
+		ResponseHeader: l[3] == 1, ResponseBody: l[4] == 1, Async: l[5] == 1}
+}
+
+func (e *env) dumpFlat(o *req.DumpOptions) []int {
+	return []int{e.sinkTok(o.Output), b2i(o.RequestHeader), b2i(o.RequestBody), b2i(o.ResponseHeader), b2i(o.ResponseBody), b2i(o.Async)}
+}
+
+func clientCert(v int) tls.Certificate { return tls.Certificate{Certificate: [][]byte{{byte(v)}}} }
+
+func (e *env) tlsConfig(l []int) *tls.Config {
+	cfg := &tls.Config{InsecureSkipVerify: l[0] == 1}
+	for _, v := range l[2 : 2+l[1]] {
+		cfg.Certificates = append(cfg.Certificates, clientCert(v))
+	}
+	if roots := l[2+l[1]:]; len(roots) > 0 {
+		cfg.RootCAs = x509.NewCertPool()
+		for _, v := range roots {
+			cfg.RootCAs.AppendCertsFromPEM([]byte(e.rootPEM[v]))
+		}
+	}
+	return cfg
+}
+
+func (e *env) tlsFlat(cfg *tls.Config) []int {
+	out := []int{b2i(cfg.InsecureSkipVerify), len(cfg.Certificates)}
+	for _, c := range cfg.Certificates {
+		tok := 9997
+		if len(c.Certificate) == 1 && len(c.Certificate[0]) == 1 {
+			tok = int(c.Certificate[0][0])
+		}
+		out = append(out, tok)
+	}
+	if cfg.RootCAs != nil {
+		for _, sub := range cfg.RootCAs.Subjects() { //nolint:staticcheck // pools built by the harness only
+			tok, ok := e.rootSub[string(sub)]
+			if !ok {
+				tok = 9996
+			}
+			out = append(out, tok)
+		}
+	}
+	return out
+}
+
+func (e *env) proxyFn(id int) func(*http.Request) (*url.URL, error) {
+	return func(*http.Request) (*url.URL, error) { e.cur.proxy = id; return nil, nil }
+}
+
+func autoDecodeFn(id int) func(string) bool {
+	want := "t" + strconv.Itoa(id)
+	return func(ct string) bool { return ct == want }
 }
 
 func cookies(vs []int) []*http.Cookie {
@@ -534,7 +887,137 @@ func (e *env) clientSet(c *req.Client, s setter, variant int) error {
 			}
 		case 5:
 			c.SetTLSHandshakeTimeout(scalTLS(s.Val))
+		case 6:
+			if s.Val == 0 {
+				c.SetProxy(nil)
+			} else {
+				c.SetProxy(e.proxyFn(s.Val))
+			}
+		case 7:
+			if s.Val == 1 {
+				c.DisableAutoDecode()
+			} else {
+				c.EnableAutoDecode()
+			}
+		case 8:
+			if s.Val == 0 {
+				c.SetAutoDecodeContentTypeFunc(nil)
+			} else {
+				c.SetAutoDecodeContentTypeFunc(autoDecodeFn(s.Val))
+			}
+		case 9:
+			if s.Val == 1 {
+				c.EnableForceHTTP1()
+			} else {
+				c.DisableForceHttpVersion()
+			}
+		case 10:
+			if s.Val == 1 {
+				c.DisableKeepAlives()
+			} else {
+				c.EnableKeepAlives()
+			}
+		case 11:
+			c.SetHTTP2MaxHeaderListSize(uint32(s.Val))
+		case 12:
+			c.SetHTTP2ConnectionFlow(uint32(s.Val))
+		case 13:
+			c.SetHTTP2StrictMaxConcurrentStreams(s.Val == 1)
+		case 14:
+			c.SetHTTP2ReadIdleTimeout(time.Duration(s.Val) * time.Hour)
+		case 15:
+			c.SetHTTP2PingTimeout(time.Duration(s.Val) * time.Hour)
+		case 16:
+			c.SetHTTP2WriteByteTimeout(time.Duration(s.Val) * time.Hour)
+		case 17:
+			c.SetHTTP2HeaderPriority(http2.PriorityParam{StreamDep: uint32(s.Val)})
+		case 18:
+			if s.Val == 0 {
+				c.SetOutputDirectory("")
+			} else {
+				c.SetOutputDirectory("d" + strconv.Itoa(s.Val))
+			}
+		case 19:
+			c.GetTransport().SetMaxIdleConns(s.Val)
+		case 20:
+			if s.Val == 1 {
+				c.EnableTraceAll()
+			} else {
+				c.DisableTraceAll()
+			}
+		case 21:
+			if s.Val == 1 {
+				c.DisableAutoReadResponse()
+			} else {
+				c.EnableAutoReadResponse()
+			}
 		}
+	case "sliceset":
+		switch s.F {
+		case 5:
+			var xs []http2.Setting
+			for _, v := range s.Vs {
+				xs = append(xs, http2.Setting{ID: http2.SettingID(v), Val: uint32(v)})
+			}
+			c.SetHTTP2SettingsFrame(xs...)
+		case 6:
+			var xs []http2.PriorityFrame
+			for _, v := range s.Vs {
+				xs = append(xs, http2.PriorityFrame{StreamID: uint32(v)})
+			}
+			c.SetHTTP2PriorityFrames(xs...)
+		}
+	case "tlsedit":
+		for i := 0; i < len(s.Es); i++ {
+			ed := s.Es[i]
+			switch ed.K {
+			case "set":
+				if ed.V == 1 {
+					c.EnableInsecureSkipVerify()
+				} else {
+					c.DisableInsecureSkipVerify()
+				}
+			case "cert":
+				// consecutive certificates go in one SetCerts call or one by one
+				certs := []tls.Certificate{clientCert(ed.V)}
+				for variant == 1 && i+1 < len(s.Es) && s.Es[i+1].K == "cert" {
+					i++
+					certs = append(certs, clientCert(s.Es[i].V))
+				}
+				c.SetCerts(certs...)
+			case "root":
+				c.SetRootCertFromString(e.rootPEM[ed.V])
+			}
+		}
+	case "tlsnew":
+		c.SetTLSClientConfig(e.tlsConfig(s.Vs))
+	case "dumpenable":
+		switch s.Api {
+		case "all":
+			c.EnableDumpAll()
+		case "to":
+			c.EnableDumpAllTo(e.sinkFor(s.Val))
+		case "async":
+			c.EnableDumpAllAsync()
+		case "noreqbody":
+			c.EnableDumpAllWithoutRequestBody()
+		case "norespbody":
+			c.EnableDumpAllWithoutResponseBody()
+		case "noresp":
+			c.EnableDumpAllWithoutResponse()
+		case "noreq":
+			c.EnableDumpAllWithoutRequest()
+		case "noheader":
+			c.EnableDumpAllWithoutHeader()
+		case "nobody":
+			c.EnableDumpAllWithoutBody()
+		}
+	case "dumpdisable":
+		c.DisableDumpAll()
+	case "dumpsetopts":
+		c.SetCommonDumpOptions(e.dumpOpts(s.Vs))
+	case "dumptransport":
+		c.GetTransport().EnableDump(e.dumpOpts(s.Vs))
 	case "wrap":
 		var ws []req.RoundTripWrapperFunc
 		for _, v := range s.Vs {
@@ -669,11 +1152,18 @@ func (e *env) emit(c *req.Client, r *req.Request) (d desc, err error) {
 	}
 	e.cur = &trace{}
 	e.last = nil
+	sinkBefore := map[int]int{}
+	for _, sk := range e.sinks[2:] {
+		sinkBefore[sk.id] = sk.n
+	}
 	resp, err := r.Post(probePath)
 	tr := e.cur
 	e.cur = &trace{}
 	if err != nil {
 		return nil, err
+	}
+	if resp.Response != nil && resp.Body != nil {
+		resp.Body.Close()
 	}
 	if resp.StatusCode != 200 || e.last == nil {
 		return nil, fmt.Errorf("origin saw nothing (status %d)", resp.StatusCode)
@@ -739,7 +1229,8 @@ func (e *env) emit(c *req.Client, r *req.Request) (d desc, err error) {
 		return nil, fmt.Errorf("jar cookies on the wire %v differ from GetCookies %v", wireJar, jar[1:])
 	}
 	// value-typed settings
-	scal := []int{base, 0, 0, 0, 0, 0}
+	scal := make([]int, nScal)
+	scal[0] = base
 	if t := c.GetClient().Timeout; t >= time.Hour {
 		scal[1] = int(t / time.Hour)
 	}
@@ -755,6 +1246,99 @@ func (e *env) emit(c *req.Client, r *req.Request) (d desc, err error) {
 	if t := c.GetTransport().TLSHandshakeTimeout; t >= time.Hour {
 		scal[5] = int(t / time.Hour)
 	}
+	tp := c.GetTransport()
+	if p := tp.Proxy; p != nil {
+		pt := &trace{}
+		e.cur = pt
+		p(&http.Request{URL: &url.URL{Scheme: "http", Host: "c19.test"}, Header: http.Header{}})
+		e.cur = &trace{}
+		scal[6] = pt.proxy
+		if tr.proxy != pt.proxy {
+			return nil, fmt.Errorf("proxy function consulted by the request (%d) is not the transport's (%d)", tr.proxy, pt.proxy)
+		}
+	}
+	disableAD, adFn, forced, h2s, outDir, scheme, traceAll, noAutoRead := req.VerifC19TransportState(c)
+	scal[7] = b2i(disableAD)
+	if adFn != nil {
+		for i := 1; i <= 3; i++ {
+			if adFn("t" + strconv.Itoa(i)) {
+				scal[8] = i
+			}
+		}
+	}
+	scal[9] = b2i(forced != "")
+	scal[10] = b2i(tp.DisableKeepAlives)
+	if h2s.Nil {
+		return nil, fmt.Errorf("client without http2 transport")
+	}
+	hours := func(ns int64) int { return int(time.Duration(ns) / time.Hour) }
+	scal[11], scal[12], scal[13] = int(h2s.MaxHeaderListSize), int(h2s.ConnectionFlow), b2i(h2s.StrictMaxConcurrentStreams)
+	scal[14], scal[15], scal[16] = hours(h2s.ReadIdleTimeout), hours(h2s.PingTimeout), hours(h2s.WriteByteTimeout)
+	scal[17] = int(h2s.HeaderPriorityStreamDep)
+	tokOf := func(s, pre string) int {
+		if s == "" {
+			return 0
+		}
+		n, err := strconv.Atoi(strings.TrimPrefix(s, pre))
+		if err != nil {
+			return 9995
+		}
+		return n
+	}
+	_ = scheme
+	scal[18], scal[20], scal[21] = tokOf(outDir, "d"), b2i(traceAll), b2i(noAutoRead)
+	if n := tp.MaxIdleConns; n != 100 { // T() default
+		scal[19] = n
+	}
+	h2set, h2prio := []int{}, []int{}
+	for _, x := range h2s.Settings {
+		h2set = append(h2set, int(x[0]))
+	}
+	for _, x := range h2s.PriorityFrames {
+		h2prio = append(h2prio, int(x))
+	}
+	// client-level dump: what the running Dumper reads, what the dump setters write, whether they are the same object
+	running, linked, setterOpts, dumperOpts := req.VerifC19DumpState(c)
+	dumping, dopt := []int{0}, []int{0}
+	if running {
+		if dumperOpts == nil {
+			return nil, fmt.Errorf("running Dumper without req.DumpOptions")
+		}
+		dumping = append([]int{1}, e.dumpFlat(dumperOpts)...)
+		// behaviour: a synchronous dump of this probe went to the sink its options name, and to no other
+		if dumperOpts.Async {
+			e.asyncSeen = true
+		}
+		if !e.asyncSeen {
+			out := e.sinkTok(dumperOpts.Output)
+			anyOn := dumperOpts.RequestHeader || dumperOpts.RequestBody || dumperOpts.ResponseHeader || dumperOpts.ResponseBody
+			for _, sk := range e.sinks[2:] {
+				got := sk.n > sinkBefore[sk.id]
+				if got && !(sk.id == out && anyOn) {
+					return nil, fmt.Errorf("dump output: sink %d received %d bytes during the probe, the Dumper's options name sink %d (any content on: %v)", sk.id, sk.n-sinkBefore[sk.id], out, anyOn)
+				}
+				if !got && sk.id == out && (dumperOpts.RequestHeader || dumperOpts.ResponseHeader) {
+					return nil, fmt.Errorf("dump output: sink %d named by the Dumper's options received nothing", sk.id)
+				}
+			}
+		}
+	} else if !e.asyncSeen {
+		for _, sk := range e.sinks[2:] {
+			if sk.n > sinkBefore[sk.id] {
+				return nil, fmt.Errorf("dump output: sink %d received data although the client-level dump is off", sk.id)
+			}
+		}
+	}
+	if setterOpts != nil {
+		dopt = append([]int{1}, e.dumpFlat(setterOpts)...)
+	}
+	tlsd := []int{0}
+	if tp.TLSClientConfig != nil {
+		tlsd = append([]int{1}, e.tlsFlat(tp.TLSClientConfig)...)
+	}
 	return desc{hdr, qry, form, flatKV(pm), nonNil(explicit), jar, nonNil(tr.before), nonNil(tr.wrap), nonNil(tr.twrap),
-		append([]int{100, 101}, tr.after...), {max, intTok}, nonNil(rt.conds), nonNil(rt.hooks), scal}, nil
+		append([]int{100, 101}, tr.after...), {max, intTok}, nonNil(rt.conds), nonNil(rt.hooks), scal,
+		h2set, h2prio, dumping, dopt, {b2i(linked)}, tlsd}, nil
 }
+
+var _ = bytes.MinRead
